@@ -8,6 +8,9 @@ definition that is not covered can change with the source without any theorem no
 must be listed, with a reason, in translate/r2c/unreferenced_allow.txt (`name<spaces>reason`); the run FAILS (exit 4) when
   - an uncovered definition is not in the allow-list, or
   - the allow-list names a definition that is covered or does not exist any more (stale entries hide nothing, but rot).
+Also: every configuration line of functions.txt with semantic weight (mtype / extern / tyvar / assoc / fuel / tymap lines, fn lines
+with inst= / needs=) must be listed verbatim ("functions.txt glue: <line>") under TRUSTED in some props/*_src.py, and every such
+entry must still be a line of functions.txt.
 usage: coverage.py [<verif root>]      prints one summary line; `--list` prints the uncovered names."""
 import glob, os, re, sys
 HERE = os.path.dirname(os.path.abspath(__file__))
@@ -91,4 +94,26 @@ for n in stale:
     print('r2c coverage: allow-list entry %s is stale (%s)' % (n, 'covered by a theorem' if n in gen else 'no such definition'))
 for n in noreason:
     print('r2c coverage: allow-list entry %s has no reason' % n)
-sys.exit(4 if bad or stale or noreason else 0)
+# ---- trusted glue: every configuration line with semantic weight must be listed verbatim under TRUSTED in some props/*_src.py
+def is_glue(l):
+    return bool(re.match(r'^(mtype|extern|tyvar|assoc|fuel|tymap)\b', l)) or (l.startswith('fn ') and (' inst=' in l or ' needs=' in l))
+cfg_lines = [l.rstrip('\n') for l in open(os.path.join(HERE, 'functions.txt'))]
+glue = [l for l in cfg_lines if is_glue(l)]
+listed = set()
+for p in sorted(glob.glob(os.path.join(V, 'props', '*_src.py'))):
+    ns = {}
+    try:
+        exec(compile(open(p).read(), p, 'exec'), ns)
+    except Exception as e:
+        print('r2c coverage: %s does not load: %s' % (p, e)); sys.exit(4)
+    for t in ns.get('TRUSTED', []):
+        if t.startswith('functions.txt glue: '):
+            listed.add((os.path.basename(p), t[len('functions.txt glue: '):]))
+unlisted = [l for l in glue if not any(g == l for _, g in listed)]
+gone = [(f, g) for f, g in sorted(listed) if g not in cfg_lines]
+print('r2c coverage: %d glue lines in functions.txt, %d not listed under TRUSTED in any props/*_src.py, %d stale TRUSTED entries' % (len(glue), len(unlisted), len(gone)))
+for l in unlisted:
+    print('r2c coverage: glue line not listed under TRUSTED in any props/*_src.py: %s' % l)
+for f, g in gone:
+    print('r2c coverage: props/%s lists a glue line that is not in functions.txt any more: %s' % (f, g))
+sys.exit(4 if bad or stale or noreason or unlisted or gone else 0)
